@@ -64,6 +64,7 @@ Ret(r)       == [outs |-> {"ret"}, rk |-> "val", res |-> r, hints |-> <<>>, st |
 Unit(s)      == [outs |-> {"ret"}, rk |-> "none", res |-> <<>>, hints |-> <<>>, st |-> s]
 Panic        == [outs |-> {"panic"}, rk |-> "none", res |-> <<>>, hints |-> <<>>, st |-> Same]
 
+HasNul(s)       == \E i \in 1 .. Len(s) : s[i] = 0
 Holds(s)        == \E i \in 1 .. N : strs[i] = s
 IndexOK(s, r)   == IF Holds(s)
                    THEN Len(r) = 1 /\ r[1] \in 0 .. (N - 1) /\ strs[r[1] + 1] = s
@@ -111,6 +112,12 @@ Eff(op) ==
     [] o = "get_unchecked" -> Ret(strs[op.i + 1])
     [] o \in WholeIter -> IterFrom(0)
     [] o \in FromIter  -> IterFrom(op.j)
+    \* a key holding a NUL byte is outside the domain of the structure (strings
+    \* without NUL; stored strings are NUL-terminated and compared as C strings,
+    \* so "ab\0" may be answered like "ab"): C12 only -- the call returns or
+    \* panics, whatever it answers
+    [] o \in {"index_of", "contains"} /\ HasNul(op.s) ->
+            [outs |-> {"ret", "panic"}, rk |-> "none", res |-> <<>>, hints |-> <<>>, st |-> Same]
     [] o = "index_of"  -> [outs |-> {"ret"}, rk |-> "index", res |-> <<>>, hints |-> <<>>, st |-> Same]
     [] o = "contains"  -> Ret(Holds(op.s))
     [] o = "mem_size"  -> [outs |-> {"ret"}, rk |-> "bound", res |-> MemBound, hints |-> <<>>, st |-> Same]
